@@ -39,6 +39,9 @@ func (s *State) evalAssignment(right object.Object, node *ast.InfixExpression) o
 			return s.Errorf("assignment to non index [] expression %T %v", node.Left, ast.DebugString(node.Left))
 		}
 		index := object.CopyRegister(s.Eval(idxE.Index)) // a map key must be the value of a loop variable, not its register.
+		if index.Type() == object.ERROR {
+			return index // m[1/0] = 3 must fail, not store the error as a key.
+		}
 		return s.evalIndexAssigment(idxE.Left, index, right)
 	case token.IDENT:
 		id := node.Left.(*ast.Identifier)
